@@ -8,6 +8,7 @@ from vlib import log
 CHECKER = "make -C /verif/coq Props/C19.vo (full .vo build of the cone) && coqc -Q /verif/coq GMQ Props/C19.v"
 CORPUS = os.path.join(vlib.VERIF, "corpus", "C19")
 FINDINGS = os.path.join(vlib.VERIF, "findings.d", "queueswap.jsonl")
+BADGER_DIR = [None]   # scratch directory of the real badger engines of this run
 
 
 # ------------------------------------------------------------------ case lines
@@ -21,12 +22,21 @@ class Case:
         self.err = f[4] if self.broken else ""
         self.obs = [] if self.broken else [o for o in f[4].split()]
         self.final = f[5] if len(f) > 5 else ""
-        self.group = f[6] if len(f) > 6 else None
+        self.group = f[6] if len(f) > 6 and f[6].startswith("g") else None
+        self.tags = dict(x.split("=") for x in f[7].split(",")) if len(f) > 7 and f[7] else {}
         if not self.broken and len(self.obs) != len(self.labels):
             self.broken, self.err = True, "output count"
 
     def script(self):
         return "%d|%d|%d|%s" % (self.durable, self.shard, self.maxram, " ".join(self.labels))
+
+    def replay_args(self, workdir=None):
+        a = ["replay"]
+        if self.tags.get("e") == "badger":
+            a += ["-engine", "badger", "-dir", workdir or BADGER_DIR[0]]
+        if self.tags.get("n") == "1":
+            a += ["-neighbours"]
+        return a
 
     def outs(self):
         return [o.split(":")[0] for o in self.obs]
@@ -46,6 +56,7 @@ def label_to_coq(l):
     if l == "Kp": return "PersistTick true"
     if l == "Kt": return "PersistTick false"
     if l[0] == "R": return "LoaderRace %s %s" % (l[1:-1], p(l[-1]))
+    if l == "Z": return "Restart"
     raise ValueError(l)
 
 
@@ -68,6 +79,7 @@ def case_to_coq(c):
         "; ".join(obs(o) for o in c.obs), lst(fin["m"]), lst(fin["pa"]), lst(fin["pf"]), lst(fin["ta"]), lst(fin["tf"]))
 
 
+HYPS_RESTART = {}  # case line -> hypotheses of the theorems over label lists with restarts
 HYPS_SAFETY = {}   # case line -> does it satisfy the hypotheses of C19_order_exactly_once_partial
 
 
@@ -92,13 +104,16 @@ def eval_cases(cases, tag):
                 "Definition cases : list qs_case := [\n%s\n].\n"
                 "Definition M := Eval vm_compute in qs_mismatches cases.\nPrint M.\n"
                 "Definition H := Eval vm_compute in qs_hyps cases.\nPrint H.\n"
-                "Definition HS := Eval vm_compute in qs_hyps_safety cases.\nPrint HS.\n") % ";\n".join(terms)
+                "Definition HS := Eval vm_compute in qs_hyps_safety cases.\nPrint HS.\n"
+                "Definition HR := Eval vm_compute in qs_hyps_restart cases.\nPrint HR.\n") % ";\n".join(terms)
         out = vlib.coq_eval(tag, text)
         bad += [idx[int(m.replace("%nat", ""))] for m in vlib.parse_coq_list(out, "M")]
         hs = vlib.parse_coq_list(out, "HS")
+        hr = vlib.parse_coq_list(out, "HR")
         for j, h in enumerate(vlib.parse_coq_list(out, "H")):
             hyps[idx[j]] = (h == "true")
-            HYPS_SAFETY[cases[idx[j]].line] = (hs[j] == "true")
+            HYPS_SAFETY[cases[idx[j]].line] = (hs[j] == "true") or (hr[j] == "true")
+            HYPS_RESTART[cases[idx[j]].line] = (hr[j] == "true")
     return sorted(set(bad)), hyps
 
 
@@ -116,7 +131,10 @@ def judge(c, drained=None):
     if c.maxram == 1:
         trig.add("F40")
     spec = []                    # the unlimited list
+    outst = []                   # delivered, unsettled
+    pers = set()                 # published persistent
     pendP, pendT = set(), set()  # overflowed (disk-only) ids not yet flushed, per store
+    pendP_all = False            # the persistent store has pending adds/updates (any)
     prev = ("0", "0", "0", "0", "0")
     for i, (l, o) in enumerate(zip(c.labels, c.obs)):
         out, snap = o.split(":")
@@ -125,6 +143,9 @@ def judge(c, drained=None):
         if l[0] == "P":
             n = int(l[1:-1])
             spec.append(n)
+            if l[-1] == "p":
+                pers.add(n)
+                pendP_all = pendP_all or c.durable
             if int(snap[4]) == ring_before:          # not put into the ring: it lives on disk only
                 (pendP if (c.durable and l[-1] == "p") else pendT).add(n)
         elif l == "O":
@@ -134,14 +155,24 @@ def judge(c, drained=None):
                 if not spec or str(spec[0]) != out:
                     return (i, "pop delivered %s, the unlimited FIFO list would deliver %s (list %s)" %
                             (out, spec[0] if spec else "nothing", spec[:6])), trig
-                spec.pop(0)
+                outst.append(spec.pop(0))
         elif l[0] == "Q":
-            spec.insert(0, int(l[1:-1]))
+            n = int(l[1:-1])
+            spec.insert(0, n)
+            if n in outst: outst.remove(n)
+            if c.durable and l[-1] == "p":
+                pendP_all = True
+        elif l[0] == "A":
+            n = int(l[1:-1])
+            if n in outst: outst.remove(n)
         elif l == "X":
-            if sw_before:
-                trig.add("F24b")
+            # the count the purge reports is judged before the purge can count as a finding's trigger
             if out != "x%d" % len(spec):
                 return (i, "purge reported %s, the queue holds %d" % (out[1:], len(spec))), trig
+            if sw_before:
+                trig.add("F24b")
+            if c.durable and (pendP_all or any(n in pers for n in outst)):
+                trig.add("F41")      # pending store entries survive the purge / unsettled deliveries lose theirs: visible at the next restart
             spec = []
         elif l == "L":
             proceeds = sw_before and ring_before < c.maxram // 2
@@ -150,10 +181,18 @@ def judge(c, drained=None):
         elif l[0] == "R":
             if sw_before and ring_before < c.maxram // 2:
                 trig.add("F24r")
-            spec.append(int(l[1:-1]))
-            pendP, pendT = set(), set()
+            n = int(l[1:-1])
+            spec.append(n)
+            if l[-1] == "p":
+                pers.add(n)
+            pendP, pendT, pendP_all = set(), set(), False
+        elif l == "Z":
+            # a durable queue comes back with its persistent messages, ready or delivered-unsettled, in id order
+            spec = sorted(n for n in set(spec + outst) if n in pers) if c.durable else []
+            outst = []
+            pendP, pendT, pendP_all = set(), set(), False
         elif l == "Kp":
-            pendP = set()
+            pendP, pendP_all = set(), False
         elif l == "Kt":
             pendT = set()
         if int(snap[3]) != len(spec):
@@ -168,6 +207,13 @@ def judge(c, drained=None):
 
 def deliveries(c):
     return [o for l, o in zip(c.labels, c.outs()) if l in ("O", "X") and o != "-"]
+
+
+def restart_deep(c):
+    """a restart after which the queue is swapped: it held at least `limit` persistent messages"""
+    if c.broken:
+        return False
+    return any(l == "Z" and o.split(":")[1].split(",")[0] == "1" for l, o in zip(c.labels, c.obs))
 
 
 def ends_with_drain(c):
@@ -203,7 +249,9 @@ def renumber_remove(labels, i):
 def shrink(exe, c, still_fails):
     labels = list(c.labels)
     def run(ls):
-        return Case(vlib.harness(exe, ["replay", "%d|%d|%d|%s" % (c.durable, c.shard, c.maxram, " ".join(ls))]).strip())
+        cc = Case(vlib.harness(exe, c.replay_args() + ["%d|%d|%d|%s" % (c.durable, c.shard, c.maxram, " ".join(ls))]).strip())
+        cc.tags = c.tags
+        return cc
     cur = run(labels)
     if not still_fails(cur):
         return c
@@ -301,8 +349,18 @@ def run(res):
                     if l and not l.startswith("#"):
                         cases.append(Case(vlib.harness(exe, ["replay", l]).strip()))
     ncorpus = len(cases)
-    args = ["run", "-seed", str(res.seed), "-n", "500" if quick else "4000", "-groups", "60" if quick else "500", "-len", "40" if quick else "70", "-exhaustive", "2" if quick else "4"]
+    args = ["run", "-seed", str(res.seed), "-n", "400" if quick else "4000", "-groups", "45" if quick else "500", "-len", "40" if quick else "70",
+            "-exhaustive", "2" if quick else "4", "-restarts"]
     cases += [Case(l) for l in vlib.harness(exe, args).splitlines() if l.strip()]
+    # neighbour queues ("p", "q2") share the stores: a scan or count running past the queue's prefix becomes visible
+    args = ["run", "-seed", str(int(res.seed) + 1), "-n", "60" if quick else "600", "-groups", "0", "-len", "40", "-restarts", "-neighbours"]
+    cases += [Case(l) for l in vlib.harness(exe, args).splitlines() if l.strip()]
+    # a slice over the REAL engine wrapper storage.NewBadger (temp dir, removed afterwards): storage_badger.go in the loop
+    bdir = vlib.workdir("C19-badger")
+    BADGER_DIR[0] = bdir
+    args = ["run", "-seed", str(int(res.seed) + 2), "-n", "45" if quick else "500", "-groups", "3" if quick else "30", "-len", "30", "-restarts", "-neighbours",
+            "-engine", "badger", "-dir", bdir]
+    cases += [Case(l) for l in vlib.harness(exe, args, timeout=1500).splitlines() if l.strip()]
     bad, hyps = eval_cases(cases, "C19") if pr["runners_ok"] else (None, [None] * len(cases))
     # judge every implementation trace
     unknown, known_dev, overflowed, hyp_and_overflow, theorem_vs_impl = [], {}, 0, 0, []
@@ -324,7 +382,7 @@ def run(res):
     groups = {}
     for i, c in enumerate(cases):
         if c.group and not c.broken and c.maxram != 1:
-            groups.setdefault(c.group, []).append(i)
+            groups.setdefault((c.group, c.tags.get("e"), c.tags.get("n")), []).append(i)
     group_diffs = []
     for g, idx in groups.items():
         ref = deliveries(cases[idx[-1]])     # the largest limit: never overflows
@@ -347,11 +405,22 @@ def run(res):
     res.cov["samples"] = [c.line for c in cases[ncorpus:ncorpus + 2]] + [c.line for c in cases[-2:]]
     res.cov["traces_validated_against_impl"] = len(cases) - (len(bad) if bad else 0)
     res.cov["exhaustive"] = False
+    res.cov["generator_distribution"].update({
+        "with-restart": sum(1 for c in cases if "Z" in c.labels),
+        "restart-of-a-queue-deeper-than-the-limit": sum(1 for c in cases if restart_deep(c)),
+        "neighbour-queues-in-the-same-stores": sum(1 for c in cases if c.tags.get("n") == "1"),
+        "real-badger-engine": sum(1 for c in cases if c.tags.get("e") == "badger"),
+        "satisfy-restart-hypotheses": sum(1 for c in cases if HYPS_RESTART.get(c.line)),
+        "satisfy-restart-hypotheses-with-restart": sum(1 for c in cases if HYPS_RESTART.get(c.line) and "Z" in c.labels)})
     res.cov["cases_where_theorem_hypotheses_hold_but_implementation_deviates"] = len(theorem_vs_impl)
     for i in theorem_vs_impl:   # cannot happen while model = implementation; if it does it is a failing input by the theorem itself
         if all(i != u[0] for u in unknown):
             unknown.append((i, judge(cases[i])[0]))
-    decide(res, pr, bad, cases, exe, unknown, group_diffs, hyps)
+    try:
+        decide(res, pr, bad, cases, exe, unknown, group_diffs, hyps)
+    finally:
+        import shutil
+        shutil.rmtree(bdir, ignore_errors=True)
 
 
 def decide(res, pr, bad, cases, exe, unknown, group_diffs, hyps):
@@ -384,8 +453,8 @@ def decide(res, pr, bad, cases, exe, unknown, group_diffs, hyps):
         small = shrink(exe, c, still) if judge(c)[0] is not None else c
         d2, _ = judge(small)
         d2 = d2 or dev
-        res.violation(dict(kind="queueswap-case", case=small.script(), implementation_trace=small.line, first_failing_label=d2[0],
-                           observation=d2[1], broken=what, replay_cmd="harness/bin/queueswap replay '%s'" % small.script()),
+        res.violation(dict(kind="queueswap-case", case=small.script(), tags=small.tags, implementation_trace=small.line, first_failing_label=d2[0],
+                           observation=d2[1], broken=what, replay_cmd="harness/bin/queueswap %s '%s'" % (" ".join(small.replay_args("<dir>")), small.script())),
                       True, "queue with overflow deviates from the unlimited FIFO list: %s  [case %s]" % (d2[1], small.script()))
     else:
         res.violation(dict(kind="obligation", broken=what,
@@ -401,7 +470,15 @@ def replay(path):
     exe, err = vlib.build_harness("queueswap")
     if exe is None:
         raise vlib.Infra(err)
-    c = Case(vlib.harness(exe, ["replay", r["case"]]).strip())
+    tmp = Case(r["case"] + "||")
+    tmp.tags = r.get("tags") or {}
+    bdir = vlib.workdir("C19-replay")
+    try:
+        c = Case(vlib.harness(exe, tmp.replay_args(bdir) + [r["case"]]).strip())
+    finally:
+        import shutil
+        shutil.rmtree(bdir, ignore_errors=True)
+    c.tags = tmp.tags
     print("implementation:", c.line)
     dev, trig = judge(c)
     print("property statement (unlimited FIFO list; queueLength):", "holds on this trace" if dev is None else "VIOLATED at label %d: %s" % dev,
